@@ -404,11 +404,14 @@ def _md_inputs():
 
 
 def set_display_probe(cx: Ctx):
-    """-> rows [(is_file, parent codes, md codes, result codes, result is the inherited list object)]"""
-    sf = cx.sf
-    ent = cx.by_pair.get(("FortranVariable", "FortranModule")) or cx.by_class["FortranVariable"]
-    fil = cx.by_class["FortranSourceFile"]
+    """-> (rows [(is_file, parent codes, md codes, result codes, result is the inherited list object)],
+           subjects [(class, meta.proc_internals)] the rows were measured on)
+
+    The rows are the *set* of outcomes over one real object of every class of the probe project x
+    `meta.proc_internals` off / on: `display` and `proc_internals` are independent options, so a class or a value
+    of `proc_internals` that makes `_set_display` answer differently adds rows (which the model cannot match)."""
     rows = set()
+    subjects = []
 
     class Par:
         def __init__(self, display):
@@ -417,36 +420,48 @@ def set_display_probe(cx: Ctx):
         def __bool__(self):
             return True
 
-    for is_file in (False, True):
-        inst = fil if is_file else ent
-        for parent in ([], ["public"], ["private", "protected"]):
-            for md in _md_inputs():
-                for variant in (0, 1):
-                    words = [w.upper() if (variant and i % 2 == 0) else (w.capitalize() if variant else w)
-                             for i, w in enumerate(md)]
-                    o = copy.copy(inst)
-                    o.meta = copy.copy(inst.meta)
-                    o.meta.display = list(words)
-                    inherited = list(parent)
-                    if is_file:
-                        o.parent = None
-                        o.display = inherited
-                    else:
-                        o.parent = Par(inherited)
-                        o.display = ["stale"]
-                    ret = o._set_display()
-                    if ret is not None:
-                        cx.anomalies.append(f"_set_display returned {ret!r}")
-                    if inherited != list(parent):
-                        cx.anomalies.append(f"_set_display changed the inherited list in place: {parent} / {words}")
-                    if o.meta.display != list(words):
-                        cx.anomalies.append(f"_set_display changed meta.display in place: {words}")
-                    if not isinstance(o.display, list):
-                        cx.anomalies.append(f"_set_display: display is {type(o.display).__name__}")
-                        continue
-                    rows.add((is_file, tuple(code(w) for w in parent), tuple(code(w) for w in md),
-                              tuple(code(w) for w in o.display), o.display is inherited))
-    return sorted(rows)
+    for cname in sorted(cx.by_class):
+        inst = cx.by_class[cname]
+        if not hasattr(inst, "_set_display") or not hasattr(inst, "meta"):
+            continue
+        is_file = isinstance(inst, cx.sf.FortranSourceFile)
+        for pi in (False, True):
+            subjects.append((cname, pi))
+            for parent in ([], ["public"], ["private", "protected"]):
+                for md in _md_inputs():
+                    for variant in (0, 1):
+                        words = [w.upper() if (variant and i % 2 == 0) else (w.capitalize() if variant else w)
+                                 for i, w in enumerate(md)]
+                        o = copy.copy(inst)
+                        o.meta = copy.copy(inst.meta)
+                        o.meta.display = list(words)
+                        o.meta.proc_internals = pi
+                        inherited = list(parent)
+                        if is_file:
+                            o.parent = None
+                            o.display = inherited
+                        else:
+                            o.parent = Par(inherited)
+                            o.display = ["stale"]
+                        try:
+                            ret = o._set_display()
+                        except Exception as ex:  # noqa: BLE001 - recorded, the theorem pins the list to []
+                            cx.anomalies.append(f"_set_display raised {type(ex).__name__} on {cname}")
+                            continue
+                        if ret is not None:
+                            cx.anomalies.append(f"_set_display returned {ret!r}")
+                        if inherited != list(parent):
+                            cx.anomalies.append(f"_set_display changed the inherited list in place: {parent} / {words}")
+                        if o.meta.display != list(words):
+                            cx.anomalies.append(f"_set_display changed meta.display in place: {words}")
+                        if o.meta.proc_internals is not pi:
+                            cx.anomalies.append("_set_display changed meta.proc_internals")
+                        if not isinstance(o.display, list):
+                            cx.anomalies.append(f"_set_display: display is {type(o.display).__name__}")
+                            continue
+                        rows.add((is_file, tuple(code(w) for w in parent), tuple(code(w) for w in md),
+                                  tuple(code(w) for w in o.display), o.display is inherited))
+    return sorted(rows), subjects
 
 
 def should_display_probe(cx: Ctx):
